@@ -267,6 +267,35 @@ def ob_exec(sysname, j):
     return FnOb([("t", "real", 0.0, 1.0)], run, max_paths=200, expect_nonlinear=True, explore_budget=60)
 
 
+def ob_exec_long(sysname, kinds):
+    """an accepted schedule with several intermediate operations is executed in schedule order: [state, op1, op2, (povm)] gives the
+    statistics of op2 o op1 on the state (non-commuting operations), for a symbolic input state"""
+    import tomo_lib, objlib
+
+    def run(I):
+        import quara.qcircuit.experiment as E
+        t = I["t"]
+        c = qenv.csys(sysname)
+        sts = tomo_lib.states(sysname)
+        v = sts[0].vec * t + sts[4].vec * (1 - t)
+        st = mk_state(c, v)
+        gk = objlib.gate_kraus(sysname)
+        gs = objlib.gates(sysname)
+        names = ["rx", "ampdamp"]                      # Rx then amplitude damping: they do not commute
+        pv_mats = tomo_lib.povm_mats(sysname)[5]
+        pv = tomo_lib.povms(sysname)[5]
+        sched = [("state", 0)] + [("gate", i) for i in range(len(kinds))] + [("povm", 0)]
+        exp = E.Experiment(schedules=[sched], states=[st], gates=[gs[n] for n in names[:len(kinds)]], povms=[pv])
+        ps = exp.calc_prob_dist(0)
+        rho = refs.ref_matrix(v, basis_of(sysname))
+        for n in names[:len(kinds)]:
+            rho = objlib.apply_kraus(gk[n], rho)
+        ref = [refs.tr(refs.mm(np.asarray(Ex, dtype=object), rho)) for Ex in pv_mats]
+        ref = [Sym.of(r).re_sym() if isinstance(r, Sym) else np.real(r) for r in ref]
+        return [Eq("probabilities == Tr(E_x G_k ... G_1 rho) in schedule order", ps, np.array(ref, dtype=object), 1e-8)]
+    return FnOb([("t", "real", 0.0, 1.0)], run, max_paths=200, expect_nonlinear=True, explore_budget=120)
+
+
 OA9 = [(0, 0, 0, 0), (0, 1, 1, 1), (0, 2, 2, 2), (1, 0, 1, 2), (1, 1, 2, 0), (1, 2, 0, 1), (2, 0, 2, 1), (2, 1, 0, 2), (2, 2, 1, 0)]
 
 
@@ -301,6 +330,7 @@ def obligations(tier):
             out += specs("C20.tomo.custom", [{"tomo": tomo, "L": L}], ob_tomo_custom, 10 * L)
         out += specs("C20.tomo.all", [{"tomo": tomo, "sysname": "Q1"}], ob_tomo_all, 2)
     out += specs("C20.exec", [{"sysname": "Q1", "j": j} for j in range(6)], ob_exec, 3)
+    out += specs("C20.exec.long", [{"sysname": "Q1", "kinds": ["gate", "gate"]}, {"sysname": "Q1", "kinds": ["gate"]}], ob_exec_long, 3)
     return out
 
 
